@@ -8,6 +8,8 @@ CONSTANTS
  Waits <- W2
  CancelOf <- CancelTF
  Foreign = FALSE
+ KindOf <- AllCalls
+ LoadOf <- NoLoad
  ClearInputs = TRUE
 INVARIANT Inv_C03
 INVARIANT Inv_C07
